@@ -402,6 +402,23 @@ def c05(ctx):
                 pass
         if not agree(real, a, ops):
             diffs.append({"tree": p_str(t), "env": str(env), "real": str(real)[:200], "model": a[:200]})
+    # division by a divisor that is exactly zero yields NaN also when the zero was computed through the float
+    # branch of a power (fractional / negative exponent, float base): 4^0.5 - 2, 2^-1 - 0.5, 0^1.5 are exactly 0.0
+    F_ = Fraction
+    divzero = [
+        (("B", "div", ("I", 1), ("B", "sub", ("B", "pow", ("V", "x"), ("F", F_(1, 2))), ("I", 2))), {"x": 4}),
+        (("B", "div", ("I", 3), ("B", "sub", ("B", "pow", ("V", "x"), ("I", -1)), ("F", F_(1, 2)))), {"x": 2}),
+        (("B", "div", ("I", 5), ("B", "pow", ("V", "y"), ("F", F_(3, 2)))), {"y": 0}),
+        (("B", "div", ("I", -1), ("B", "sub", ("B", "pow", ("V", "x"), ("F", F_(1, 2))), ("I", 3))), {"x": 9}),
+        (("B", "div", ("V", "y"), ("B", "sub", ("B", "pow", ("F", F_(4)), ("F", F_(1, 2))), ("I", 2))), {"y": 7}),
+        (("B", "add", ("I", 1), ("B", "div", ("I", 2), ("B", "mul", ("I", 0), ("B", "pow", ("V", "x"), ("F", F_(1, 2)))))), {"x": 4}),
+        (("B", "div", ("I", 1), ("B", "sub", ("V", "x"), ("V", "x"))), {"x": 2.5}),
+    ]
+    for t_, env_ in divzero:
+        got = real_eval(t_, env_)
+        if got != ("nan",):
+            bad.append({"tree": p_str(t_), "env": str(env_), "real": str(got)[:200],
+                        "problem": "a division by zero did not yield NaN (divisor computed through a float power)"})
     # the value of an expression does not depend on what was evaluated before in the same process:
     # every operator first with float operands, then with the numerically equal int operands (which must
     # give the exact integer), then with floats again; and the other way round
